@@ -954,4 +954,10 @@ Module ExU.
     (mstep U (hrun U (take 3 hs1)).1 (AddBlocks [4; 5; 7])).2 = true ∧
     (mstep U (hrun U (take 3 hs1)).1 (AddBlocks [4; 5; 6])).2 = false.
   Proof. vm_compute. split; reflexivity. Qed.
+  (** a pool submission (accepted or not) neither moves the tip nor notifies reorg listeners *)
+  Example pool_ex :
+    hnotifies U (hrun U hs1).1 (HPool true) = false ∧
+    hstep U (hrun U hs1) (HPool true) = hrun U hs1 ∧
+    (hrun U (hs1 ++ [HPool true; HPool false])).1 = (hrun U hs1).1.
+  Proof. vm_compute. split_and!; reflexivity. Qed.
 End ExU.
